@@ -8,6 +8,9 @@ use serde_json::{json, Value};
 pub mod c01;
 pub mod c03;
 pub mod c04;
+pub mod c15;
+pub mod c16;
+pub mod c20;
 pub mod e1common;
 pub mod smoke;
 
@@ -17,6 +20,9 @@ pub fn parent_main(prop: &str, tier: &str) -> i32 {
         "C01" => c01::parent(tier),
         "C03" => c03::parent(tier),
         "C04" => c04::parent(tier),
+        "C20" => c20::parent(tier),
+        "C15" => c15::parent(tier),
+        "C16" => c16::parent(tier),
         _ => {
             eprintln!("unknown property {}", prop);
             2
@@ -37,6 +43,15 @@ pub fn worker_main(prop: &str, tier: &str, _slot: usize) {
         }
         "C04" => {
             let mut h = c04::handle_factory();
+            pool::worker_loop(|t, io| h(tier, t, io))
+        }
+        "C20" => pool::worker_loop(|t, io| c20::handle(tier, t, io)),
+        "C15" => {
+            let mut h = c15::handle_factory();
+            pool::worker_loop(|t, io| h(tier, t, io))
+        }
+        "C16" => {
+            let mut h = c16::handle_factory();
             pool::worker_loop(|t, io| h(tier, t, io))
         }
         _ => {}
